@@ -270,7 +270,7 @@ def _range_sites(ctx, fi, env, depth, out, chain):
     w = ctx.world
     prog = ctx.prog
     ft = w.types(fi)
-    mps = mode_params(ctx, [fi])
+    mps = mode_params(ctx, reachable(ctx, [fi]))
     mp = mps.get(fi.qname)
     if mp:
         ps, _ = report_sites(ctx, fi, mp)
@@ -364,7 +364,7 @@ def rule_r4(ctx, rep):
 def rule_r5(ctx, rep):
     prog = ctx.prog
     fi = rule_method(prog, "_validate_non_empty_content")
-    mp = mode_params(ctx, [fi]).get(fi.qname)
+    mp = mode_params(ctx, reachable(ctx, [fi])).get(fi.qname)
     ps, _ = report_sites(ctx, fi, mp) if mp else ([], [])
     ps = [p for p in ps if isinstance(p.code, EnumMember) and p.code.member == "CONTENT_EXPECTED_NONEMPTY"]
     if not ps:
@@ -406,6 +406,66 @@ def rule_r5(ctx, rep):
     rep.floor("non-empty verdict points", 12)
 
 
+def rule_r6(ctx, rep):
+    """the reject decision of the empty / enumerated / typed checkers over {no content, empty, listed, unlisted} x
+    {predicate holds, fails}; the typed predicates themselves are stubbed (their lexical acceptance is not decided)"""
+    from ..condeval import guard_verdict
+    prog = ctx.prog
+    w = ctx.world
+    fi0, loop, var, arms, fall = content_dispatch(prog)
+    sl = [f for f in reachable(ctx, [fi0]) if f.cls is not None and f.cls.qname == RULE_Q]
+    mps = mode_params(ctx, sl)
+    preds = {m.qname for m in prog.cls(RULE_Q).methods.values() if m.kind == "static" and m.name.startswith("is_")}
+    typed = {"CONTENT_EXPECTED_FLOAT", "CONTENT_EXPECTED_INT", "CONTENT_EXPECTED_TIME_FORMAT", "CONTENT_EXPECTED_URI", "CONTENT_EXPECTED_YEAR_FORMAT"}
+    seen = set()
+    for fi in sl:
+        if fi.qname not in mps:
+            continue
+        ps, _ = report_sites(ctx, fi, mps[fi.qname])
+        for p in ps:
+            if p.helper or not isinstance(p.code, EnumMember):
+                continue
+            code = p.code.member
+            nodep = next((x for x in fi.params if w.types(fi).env.get(x) == "Node"), None)
+            if nodep is None:
+                continue
+            cases = []
+            if code == "CONTENT_EXPECTED_EMPTY":
+                cases = [({"c": None}, False), ({"c": "x"}, True)]
+            elif code == "CONTENT_EXPECTED_ENUM":
+                cases = [({"c": "a"}, False), ({"c": "zz"}, True), ({"c": None}, True), ({"c": ""}, True)]
+            elif code in typed:
+                cases = [({"c": "x", "pred": True}, False), ({"c": "x", "pred": False}, True)]
+            if not cases or (fi.qname, code) in seen:
+                continue
+            seen.add((fi.qname, code))
+            for (case, want) in cases:
+                pe = PEval(w)
+                for q in preds:
+                    pe.stubs[q] = case.get("pred", True)
+                env = {nodep: {"__obj__": True, "content": case["c"], "_content": case["c"], "name": "n", "_name": "n", "children": [], "_children": []},
+                       mps[fi.qname]: None}
+                for x in fi.params:
+                    if x not in env and x != fi.params[0] or (x not in env and not fi.bound):
+                        env.setdefault(x, ["a", "b"] if "enum" in x else False)
+                try:
+                    v = guard_verdict(ctx, fi, p.if_node, env, pe)
+                except PEvalUnsupported as ex:
+                    rep.notes.append(f"{fi.qname}: guard of {code} not evaluated: {ex}")
+                    break
+                rep.count("checker verdict points")
+                ok = v == want
+                rep.oblige(("R6", fi.qname, code, repr(case)), ok, sample={"checker": fi.name, "content": case["c"], "predicate": case.get("pred"),
+                                                                           "reports": v, "required": want})
+                if not ok:
+                    what = f"raises {v[1]}" if isinstance(v, tuple) else ("reported" if v else "accepted")
+                    rep.add("R6", fi.qname, enclosing_ifs(fi, p.if_node)[-1][0].test if enclosing_ifs(fi, p.if_node) else p.append_call,
+                            f"{code}: content {case['c']!r}" + (f" with the type predicate {'holding' if case.get('pred') else 'failing'}" if "pred" in case else "")
+                            + f" is {what}; the constraint requires it to be {'reported' if want else 'accepted'}", fi.loc(p.if_node))
+                    break
+    rep.floor("checker verdict points", 14)
+
+
 def run(ctx, rep):
     rep.explanation = (
         "dispatch exhaustiveness against rules.json and kind agreement of every arm with its checker (parse primitive + error "
@@ -413,12 +473,12 @@ def run(ctx, rep):
         "every error/warning code reference names a declared member; the reject conditions of the ranged kinds and of the "
         "non-empty check evaluated over an abstract domain (boundaries, +-inf, NaN; content x children x flag) with interval "
         "constants propagated from the dispatch arm")
-    rep.rules_run = ["R1", "R2", "R3", "R4", "R5"]
+    rep.rules_run = ["R1", "R2", "R3", "R4", "R5", "R6"]
     rep.assumptions += [
         "NOT decided: the lexical acceptance of float(), int(), strptime, time.fromisoformat and rfc3986 (library semantics)",
         "R4 evaluates the guard conditions, not the parsers: a value is represented by the float it parses to",
     ]
     only = getattr(rep, "only", None)
-    for name, fn in (("R1", rule_r1), ("R2", rule_r2), ("R3", rule_r3), ("R4", rule_r4), ("R5", rule_r5)):
+    for name, fn in (("R1", rule_r1), ("R2", rule_r2), ("R3", rule_r3), ("R4", rule_r4), ("R5", rule_r5), ("R6", rule_r6)):
         if only in (None, name):
             fn(ctx, rep)
